@@ -13,6 +13,7 @@
     External numerics: np.linalg.inv (hypothesis of [change_basis_roundtrip]); everything
     else in this class is closed-form. *)
 From Coq Require Import Reals List Lra Lia Bool Arith ZArith.
+Set Warnings "-ambiguous-paths".
 From Coquelicot Require Import Coquelicot.
 From WG Require Import Lib.Lagrange Lib.Cheb Lib.Spectral Lib.Quadrature.
 From GenC16 Require Import PolyCfg.
@@ -23,7 +24,7 @@ Local Open Scope R_scope.
 Definition cfg_same (a b : axcfg) : Prop :=
   c_lo a = c_lo b /\ c_hi a = c_hi b /\ c_restr a = c_restr b.
 
-Lemma gen_ranges d ep M N size : sizes_ok d M N ->
+Lemma index_ranges_match_model_lemma d ep M N size : sizes_ok d M N ->
   cfg_same (gen_evalCard d ep M N) (cfg_evalCard d ep M N) /\
   cfg_same (gen_evalCheb d ep M N) (cfg_evalCheb d ep M N) /\
   cfg_same (gen_chebMatrix d ep size) (cfg_chebMatrix d ep size) /\
@@ -43,12 +44,12 @@ Theorem generated_index_ranges_match_model : forall d ep M N size, sizes_ok d M 
   gen_cardDeriv_rows d ep = trim_rows d ep /\
   gen_int_div d ep M N = wdiv d M N /\
   gen_int_halved d ep = int_halved d ep.
-Proof. exact gen_ranges. Qed.
+Proof. exact index_ranges_match_model_lemma. Qed.
 Print Assumptions generated_index_ranges_match_model.
 
 (** changeBasis on a rank-2 object: what is used for an axis depends on THAT axis only
     (per-axis independence of the basis change, also for mixed end-point tuples) *)
-Lemma gen_cb d1 e1 d2 e2 M N :
+Lemma changeBasis_axis_independent_lemma d1 e1 d2 e2 M N :
   cfg_same (gen_changeBasis_first d1 e1 d2 e2 M N) (cfg_changeBasis d1 e1 M N) /\
   cfg_same (gen_changeBasis_second d1 e1 d2 e2 M N) (cfg_changeBasis d2 e2 M N).
 Proof.
@@ -58,11 +59,11 @@ Qed.
 Theorem changeBasis_axis_independent : forall d1 e1 d2 e2 M N,
   cfg_same (gen_changeBasis_first d1 e1 d2 e2 M N) (cfg_changeBasis d1 e1 M N) /\
   cfg_same (gen_changeBasis_second d1 e1 d2 e2 M N) (cfg_changeBasis d2 e2 M N).
-Proof. exact gen_cb. Qed.
+Proof. exact changeBasis_axis_independent_lemma. Qed.
 Print Assumptions changeBasis_axis_independent.
 
 (** the restricted functions and the derivative entries the source computes *)
-Lemma gen_fun {T} (O : Ops T) x n r d ep :
+Lemma functions_match_model_lemma {T} (O : Ops T) x n r d ep :
   gen_chebyshev O x n r = chebyshev O x n r /\
   gen_chebyshevDeriv O x n d ep = chebyshevDeriv O x n (full_restr d) ep.
 Proof.
@@ -74,14 +75,14 @@ Qed.
 Theorem generated_functions_match_model : forall T (O : Ops T) x n r d ep,
   gen_chebyshev O x n r = chebyshev O x n r /\
   gen_chebyshevDeriv O x n d ep = chebyshevDeriv O x n (full_restr d) ep.
-Proof. intros. apply gen_fun. Qed.
+Proof. intros. apply functions_match_model_lemma. Qed.
 Print Assumptions generated_functions_match_model.
 
 (** model-free consistency of the extracted facts: the odd-n correction of
     _chebyshevDeriv is applied exactly when the basis that changeBasis / evaluate /
     _chebyshevMatrix use for the same axis kind is the fully restricted one, and all four
     methods use the same Chebyshev orders *)
-Lemma gen_consistent d ep M N : sizes_ok d M N ->
+Lemma derivative_correction_consistent_lemma d ep M N : sizes_ok d M N ->
   (gen_chebDeriv_corr d ep = true <-> c_restr (gen_changeBasis_second d ep d ep M N) = RFull) /\
   c_restr (gen_evalCheb d ep M N) = c_restr (gen_changeBasis_second d ep d ep M N) /\
   c_restr (gen_chebMatrix d ep 0) = c_restr (gen_changeBasis_second d ep d ep M N) /\
@@ -102,7 +103,7 @@ Theorem derivative_correction_consistent_with_basis : forall d ep M N, sizes_ok 
   cfg_range (gen_chebDeriv d ep (gsize d M N)) = cfg_range (gen_changeBasis_second d ep d ep M N) /\
   cfg_range (gen_chebMatrix d ep (gsize d M N - fst (gen_cardDeriv_rows d ep) - snd (gen_cardDeriv_rows d ep)))
     = cfg_range (gen_changeBasis_second d ep d ep M N).
-Proof. exact gen_consistent. Qed.
+Proof. exact derivative_correction_consistent_lemma. Qed.
 Print Assumptions derivative_correction_consistent_with_basis.
 
 (** * 2. cardinal functions, interpolation, derivative matrix: arbitrary distinct nodes *)
@@ -172,7 +173,7 @@ Theorem restricted_vanish : forall n,
   gen_chebyshev ROps 1 n RFull = 0 /\ gen_chebyshev ROps (-1) n RFull = 0 /\
   gen_chebyshev ROps 1 n RPartial = 0.
 Proof.
-  intro n. rewrite !(proj1 (gen_fun ROps _ n _ Dz true)).
+  intro n. rewrite !(proj1 (functions_match_model_lemma ROps _ n _ Dz true)).
   destruct (restricted_full_vanish n) as [A B]. repeat split; try assumption.
   apply restricted_partial_vanish.
 Qed.
@@ -184,9 +185,9 @@ Theorem cheb_deriv_entries : forall d ep n x,
   derivable_pt_lim (fun y => gen_chebyshev ROps y n (eff_restr d ep)) x
                    (gen_chebyshevDeriv ROps x n d ep).
 Proof.
-  intros d ep n x. rewrite (proj2 (gen_fun ROps x n RNone d ep)).
+  intros d ep n x. rewrite (proj2 (functions_match_model_lemma ROps x n RNone d ep)).
   apply (derivable_pt_lim_ext (fun y => chebyshev ROps y n (eff_restr d ep))).
-  - intro y. symmetry. apply (proj1 (gen_fun ROps y n (eff_restr d ep) d ep)).
+  - intro y. symmetry. apply (proj1 (functions_match_model_lemma ROps y n (eff_restr d ep) d ep)).
   - apply chebyshevDeriv_entry_R.
 Qed.
 Print Assumptions cheb_deriv_entries.
@@ -222,7 +223,7 @@ Theorem evaluate_indices_are_nodes : forall d ep (grid : list R) M N,
   map (fun n => nth n grid 0) (cfg_range (gen_evalCard d ep M N)) = pyslice (gen_cardDeriv_rows d ep) grid.
 Proof.
   intros d ep grid M N L HS.
-  destruct (gen_ranges d ep M N 0%nat HS) as [[A [B _]] [_ [_ [_ [E _]]]]].
+  destruct (index_ranges_match_model_lemma d ep M N 0%nat HS) as [[A [B _]] [_ [_ [_ [E _]]]]].
   rewrite E, <- trim_pyslice, <- (evalCard_nodes d ep grid M N L HS).
   unfold cfg_range. now rewrite A, B.
 Qed.
